@@ -75,6 +75,17 @@ func processFramesPresent() bool {
 		if strings.Contains(g, "(*Service).Process") {
 			return true
 		}
+		// a timer goroutine that is past its timer channel (about to emit, or emitting) also
+		// counts as work in progress; one that still waits is in a select
+		if strings.Contains(g, "main.(*Timers).Add.func") {
+			first := g
+			if i := strings.Index(g, "\n"); i > 0 {
+				first = g[:i]
+			}
+			if !strings.Contains(first, "[select") {
+				return true
+			}
+		}
 	}
 	return false
 }
